@@ -10,7 +10,12 @@ import time
 ROOT = "/verif"
 REPO = os.environ.get("VERIF_REPO", "/repo")
 WORK = os.path.join(ROOT, ".work")
+if REPO != "/repo":
+    # sensitivity runs on a scratch copy use their own work area
+    WORK = os.path.join(WORK, "alt_" + re.sub(r"[^A-Za-z0-9]+", "_", REPO)[-40:])
 os.makedirs(WORK, exist_ok=True)
+# where evidence/ and replay/ go (a sensitivity run must not touch the real ones)
+OUT = os.environ.get("VERIF_OUT_DIR", ROOT)
 
 DISCHARGED, FAILED, UNDECIDED = "discharged", "failed", "undecided"
 
@@ -212,8 +217,10 @@ def finish(prop, tier, seed, obs, meta, t0, replay_fn=None):
         "wall_s": round(wall, 2),
         "violations": len(viol),
     }
-    os.makedirs(os.path.join(ROOT, "evidence"), exist_ok=True)
-    with open(os.path.join(ROOT, "evidence", prop + ".json"), "w") as f:
+    if "sensitivity" in meta:
+        cov["sensitivity"] = meta["sensitivity"]
+    os.makedirs(os.path.join(OUT, "evidence"), exist_ok=True)
+    with open(os.path.join(OUT, "evidence", prop + ".json"), "w") as f:
         json.dump(ev, f, indent=1)
     for l in out_lines:
         print(l)
@@ -229,9 +236,9 @@ def finish(prop, tier, seed, obs, meta, t0, replay_fn=None):
 def write_replay(prop, ob, playback):
     """replay file: names the failed obligation, carries the verifier output,
     and (if available) the concrete failing input + native replay result"""
-    os.makedirs(os.path.join(ROOT, "replay"), exist_ok=True)
+    os.makedirs(os.path.join(OUT, "replay"), exist_ok=True)
     safe = re.sub(r"[^A-Za-z0-9_.-]+", "_", ob.name)
-    path = os.path.join(ROOT, "replay", "%s-%s.json" % (prop, safe))
+    path = os.path.join(OUT, "replay", "%s-%s.json" % (prop, safe))
     d = {
         "property_id": prop,
         "obligation": ob.name,
